@@ -397,6 +397,46 @@ def selection_shapes():
                               asserts="accessors of the un-attributed variants exist and agree with the value")],
                      decl.replace("\n", " "), exercises=["impl/src/unwrap.rs::expand", "impl/src/try_unwrap.rs::expand", "impl/src/is_variant.rs::expand",
                                                           "impl/src/utils.rs::State::new_impl (default_enabled)"]))
+    # variant-level owned / ref / ref_mut next to an enum-level selection: the variant keeps the kinds it inherits from the enum
+    variants = [Var("Small", "small", "tuple", ["V"]), Var("Counter", "counter", "tuple", ["V"], attrs="#[try_into(ref_mut)]"),
+                Var("Cached", "cached", "named", ["V"], attrs="#[try_into(ref)]"), Var("Text", "text", "tuple", ["W"]),
+                Var("Hidden", "hidden", "tuple", ["V"], attrs="#[try_into(ignore)]", ignored=True)]
+    decl = ("#[derive(Clone, Copy, PartialEq, Debug, derive_more::TryInto)]\n#[try_into(owned, ref)]\npub enum E {\n%s\n}"
+            % "\n".join(v.decl("try_into") for v in variants))
+    src = """    #[kani::proof]
+    fn variant_level_kinds_add_to_the_enum_level_ones() {
+        let mut v = any_e();
+        let holds_v = matches!(v, E::Small(..) | E::Counter(..) | E::Cached { .. });
+        match <V as core::convert::TryFrom<E>>::try_from(v) {
+            Ok(p) => assert!(matches!(v, E::Small(l) | E::Counter(l) | E::Cached { a: l } if l == p), "owned: Ok for a variant with another payload"),
+            Err(e) => assert!(!holds_v && e.input == v, "owned: a non-ignored variant holding a V was refused (or the error lost the original)"),
+        }
+        match <&V as core::convert::TryFrom<&E>>::try_from(&v) {
+            Ok(p) => assert!(matches!(&v, E::Small(l) | E::Counter(l) | E::Cached { a: l } if ptr::eq(l, p)), "ref: not the payload itself"),
+            Err(e) => assert!(!holds_v && ptr::eq(e.input, &v), "ref: a non-ignored variant holding a V was refused"),
+        }
+        match <W as core::convert::TryFrom<E>>::try_from(v) {
+            Ok(p) => assert!(matches!(v, E::Text(l) if l == p)),
+            Err(e) => assert!(!matches!(v, E::Text(..)) && e.input == v),
+        }
+        let was_counter = matches!(v, E::Counter(..));
+        let nv: u32 = kani::any();
+        if let Ok(m) = <&mut V as core::convert::TryFrom<&mut E>>::try_from(&mut v) {
+            m.0 = nv;
+            assert!(matches!(v, E::Small(V(x)) | E::Counter(V(x)) | E::Cached { a: V(x) } if x == nv), "ref_mut: the write did not land in the payload");
+        } else {
+            assert!(!was_counter, "ref_mut: the variant that asks for ref_mut was refused");
+        }
+        kani::cover!(matches!(v, E::Counter(..)), "reach Counter");
+        kani::cover!(matches!(v, E::Cached { .. }), "reach Cached");
+        kani::cover!(matches!(v, E::Hidden(..)), "reach the ignored variant");
+    }
+"""
+    out.append(Shape("c11_try_into_variant_level_kinds", module(decl, any_e(variants), src),
+                     [Harness("variant_level_kinds_add_to_the_enum_level_ones", "the value: variant and payloads symbolic; the written value symbolic", covers=3,
+                              asserts="owned and ref TryFrom succeed exactly for the non-ignored variants holding the target type, also for variants that carry "
+                                      "their own ref / ref_mut selection; ref_mut exists for the variant that asks for it and writes land in the payload")],
+                     decl.replace("\n", " "), exercises=["impl/src/try_into.rs::expand (ref_types of a variant)", "impl/src/utils.rs::FullMetaInfo::ref_types"]))
     # exactly one non-ignored variant: `is_x()` still has to look at the value
     variants = [Var("Data", "data", "tuple", ["V"]), Var("Heartbeat", "heartbeat", "unit", [], attrs="#[is_variant(ignore)]", ignored=True),
                 Var("Other", "other", "tuple", ["W"], attrs="#[is_variant(ignore)]", ignored=True)]
